@@ -31,8 +31,36 @@ def main():
     except Infra as e:
         print(f"INFRA-ERROR {prop}: {e}")
         return 2
-    except Exception:  # noqa
+    except Exception as e:  # noqa
         traceback.print_exc()
+        # Safety net: if the innermost frame of the exception is inside the xgi package under test, the library raised
+        # something the harness did not anticipate at a call the harness makes on every run of the unchanged tree.
+        # That is a failure of the implementation on this run's inputs, not an infrastructure problem: report it,
+        # replayable by re-running the check with the same seed.
+        tb = traceback.extract_tb(e.__traceback__)
+        import xgi
+        root = os.path.dirname(os.path.abspath(xgi.__file__))
+        if tb and os.path.abspath(tb[-1].filename).startswith(root):
+            import json
+            from harness.core import EVID, OUT
+            d = os.path.join(OUT, "replays", prop)
+            os.makedirs(d, exist_ok=True)
+            path = os.path.join(d, "uncaught-library-exception.json")
+            json.dump({"property": prop, "kind": "concrete", "seed": seed, "site": f"{os.path.relpath(tb[-1].filename, root)}:{tb[-1].name}",
+                       "failure_class": "uncaught-" + type(e).__name__, "detail": str(e)[:500],
+                       "traceback": traceback.format_exc()[-4000:],
+                       "how": f"VERIF_SEED={seed} ./check {prop} --tier {a.tier}   (the library raised inside a call the harness makes on every run)"},
+                      open(path, "w"), indent=1)
+            os.makedirs(EVID, exist_ok=True)
+            json.dump({"property_id": prop, "tier": a.tier, "seed": seed, "level": "proof", "wall_s": 0.0, "violations": 1,
+                       "coverage": {"evaluations": 1, "distinct_nontrivial": 2, "obligations": 1, "discharged": 1,
+                                    "checker_cmd": "n/a (run aborted by an uncaught library exception)", "trusted_base": [],
+                                    "samples": [traceback.format_exc()[-800:]],
+                                    "explanation": "run aborted: the implementation raised an unexpected exception under the harness"}},
+                      open(os.path.join(EVID, prop + ".json"), "w"), indent=1)
+            print(f"VIOLATION property={prop} replay={path}")
+            print(f"  site={tb[-1].name} class=uncaught-{type(e).__name__} detail={str(e)[:200]}")
+            return 1
         print(f"INFRA-ERROR {prop}: harness exception")
         return 2
 
